@@ -9,18 +9,10 @@ from . import io_rules as io
 from . import io_rules2 as io2
 from .io_rules2 import TextEval
 
-EXPLANATION = (
-    "Static rules: (R1) skip = read in bytes: for every mesh reader class the per-block byte effect with every variable read "
-    "equals the effect with every variable skipped and equals step_over (polynomial identities), likewise the particle "
-    "header loop; (R2) selection normalisation folded over all select shapes: descriptor_to_variables (dict/True/False/list x "
-    "listed/unlisted) and Loader.load's per-kind _select (None, dicts with valid/unknown/switched-off groups, lists); every "
-    "reader initialised with the selection of its own kind; (R3) inactive readers are inert: only initialised readers join "
-    "the file loop, the AMR reader is added whenever a mesh reader is active; (R4) vector assembly folded over name sets "
-    "(complete/incomplete component sets, infix and suffix names, names containing an earlier 'x', 1/2/3-D); derived "
-    "variables formulas.")
-NOT_DECIDED = "bit-identity of the projected arrays (follows from R1 + the C01 layout rules); numpy concatenation order"
-TRUSTED = ("CPython ast", "S1 layout", "assumption A1 (mesh variables of type d)")
-TECHNIQUE = "static analysis: polynomial byte-effect identities between sibling branches; finite-case folding of the selection logic"
+EXPLANATION = "(R1) per-block bodies and the particle file interpreted on a symbolic file: selected and skipped variables (types d/i/b) and step_over advance the byte position alike, every decode on its own record; (R2) descriptor_to_variables over the forms of select (dict with predicate / False, True, False, list, empty) with a previous load's pieces present; Loader.load fold over select None / dict / list / unknown group; (R3) only initialised readers open files and see records; reader.initialize histories on / off / files gone; (R4) vector assembly over 12 name sets; derived variables over 4 input sets."
+NOT_DECIDED = 'values; descriptors with types other than d/i/b'
+TRUSTED = ('CPython ast', 'S1 layout', 'the interpreter sa/models.py (ModelEval) and its library models')
+TECHNIQUE = 'static analysis: abstract interpretation of the readers on a symbolic file, finite-case folding of the selection logic'
 
 from . import loader_folds as lfold
 from . import io_folds as iof
